@@ -80,6 +80,9 @@ def step(
     else:
         alphas = valphas
 
+    # one-sided constraints contribute infinite alphas: they never limit the step
+    # (and an infinite range cannot be sampled from)
+    alphas = alphas[np.isfinite(alphas)]
     pos_alphas = alphas[alphas > 0.0]
     neg_alphas = alphas[alphas <= 0.0]
     alpha_range = np.array(
